@@ -241,8 +241,15 @@ def analyzer_history(rec, seedt):
               backend=str(rng.choice(["numba", "numpy"])), Jdes=int(rng.choice([8, 30])),
               Kdes=int(rng.choice([3, 20])), olap=float(rng.choice([0.3, 0.5, 0.75])))
     kw.update(api.win_args(api.random_window(rng)))
-    if rng.random() < 0.2:
-        kw.update(force_target_nf=True, Jdes=int(rng.choice([20, 35])))
+    if rng.random() < 0.25 and kw["scheduler"] != "vectorized_ltf":
+        # forced bin count with a REACHABLE target: the bin count an unforced plan with a Jdes
+        # inside the search range produces
+        try:
+            probe_kw = dict(kw, Jdes=int(rng.choice([120, 200, 400])))
+            kw.update(force_target_nf=True,
+                      Jdes=int(len(SpectrumAnalyzer(data, 1.0, **probe_kw).plan()["f"])))
+        except Exception:
+            pass
     fs = float(rng.choice([1.0, 50.0]))
     nops = int(rng.integers(5, 31))
     ops = []
